@@ -301,7 +301,12 @@ def ray_oracle(rs, n, ctx, honor):
             step = kw.get("stepsize", float(min(d)))
             seg = np.linalg.norm(np.diff(ray, axis=0), axis=1)
             if not honor and (seg > step * (1 + 1e-9)).any():
-                R.violate("C10:step-length", f"segment of length {seg.max()!r} > step {step!r}", rep)
+                # known finding F17: where the interpolated gradient vanishes (midway between two nodes of the
+                # source cell whose gradients point away from the source on either side) the tracer stops and
+                # jumps to the source: only the segment touching the source is long, and it stays inside one cell
+                only_first = (seg[1:] <= step * (1 + 1e-9)).all() and seg[0] <= math.sqrt(sum(x * x for x in d))
+                key = "C10:step-length-final-jump-in-source-cell" if only_first else "C10:step-length"
+                R.violate(key, f"segment of length {seg.max()!r} > step {step!r}", rep)
             if honor:
                 for vtx in ray[1:-1]:
                     on = False
